@@ -9,6 +9,7 @@ import (
 	"fmt"
 	"os"
 	"path/filepath"
+	"sort"
 	"strings"
 
 	"verifharness/internal/coqfmt"
@@ -45,19 +46,19 @@ func modeFor(prop string) (*histMode, error) {
 	all := []string{"object", "array", "arraymove", "text", "counter", "mixed"}
 	switch prop {
 	case "C01":
-		return &histMode{flavors: all,
+		return &histMode{flavors: append(append([]string{}, all...), "tree"),
 			gen: hist.GenConfig{MinClients: 2, MaxClients: 5, MinSteps: 6, MaxSteps: 40, PushOnly: true},
 			oracle: func(h *hist.History, o *hist.Outcome) []hist.Problem {
 				return append(baseOracle(h, o), hist.CheckConvergence(o)...)
 			}}, nil
 	case "C02":
-		return &histMode{flavors: []string{"object", "array", "arraymove", "text", "counter", "mixed"}, twin: "nosnap",
+		return &histMode{flavors: []string{"object", "array", "arraymove", "text", "counter", "mixed", "tree"}, twin: "nosnap",
 			gen: hist.GenConfig{MinClients: 2, MaxClients: 4, MinSteps: 10, MaxSteps: 40, Late: true, Detach: true, Inflight: true},
 			oracle: func(h *hist.History, o *hist.Outcome) []hist.Problem {
 				return append(baseOracle(h, o), hist.CheckConvergence(o)...)
 			}}, nil
 	case "C03":
-		return &histMode{flavors: []string{"array", "arraymove", "text", "object", "mixed"}, twin: "nogc",
+		return &histMode{flavors: []string{"array", "arraymove", "text", "object", "mixed", "tree"}, twin: "nogc",
 			gen: hist.GenConfig{MinClients: 2, MaxClients: 4, MinSteps: 8, MaxSteps: 40, PushOnly: true, Inflight: true},
 			oracle: func(h *hist.History, o *hist.Outcome) []hist.Problem {
 				return append(baseOracle(h, o), hist.CheckConvergence(o)...)
@@ -263,6 +264,27 @@ func runHist(cfg *config) error {
 		o2 := rnNoGC.Run(ctx, &h2)
 		p2 := append(baseOracle(&h2, o2), hist.CheckConvergence(o2)...)
 		sig["gc_only"] = o2.Fatal == "" && len(p2) == 0
+		// do the replicas hold the same pieces in a different order?
+		o3 := rn.Run(ctx, small)
+		orderOnly := false
+		if o3.Fatal == "" && len(o3.Final) > 1 {
+			canon := func(s string) string {
+				b := []byte(s)
+				sort.Slice(b, func(i, j int) bool { return b[i] < b[j] })
+				return string(b)
+			}
+			differ, sameBag := false, true
+			for _, f := range o3.Final[1:] {
+				if f != o3.Final[0] {
+					differ = true
+				}
+				if canon(f) != canon(o3.Final[0]) {
+					sameBag = false
+				}
+			}
+			orderOnly = differ && sameBag
+		}
+		sig["order_only"] = orderOnly
 		return sig
 	}
 	var protoCases []string
